@@ -301,6 +301,15 @@ func ruleM4(c *Ctx) {
 	if len(reads) < 2 {
 		c.violate("M4", "trunk-reads", rd.Pos(), "header and payload are read from the trunk", fmt.Sprintf("found %d trunk reads", len(reads)))
 	}
+	// every read of the trunk is a complete read of the buffer handed in: a stream transport may return fewer bytes
+	for i, r := range reads {
+		full := false
+		if g := m.callee(r.Common()); g != nil && g.String() == "io.ReadFull" {
+			full = true
+		}
+		c.ok("M4", fmt.Sprintf("trunk-read#%d/full", i+1), r.Pos(), full, "the trunk read fills its whole buffer (io.ReadFull)",
+			"the trunk is read with a plain Read (or a read that may return early): when the transport delivers the header or payload in pieces the rest of the buffer keeps stale bytes, the frame stream loses synchronisation and frames are dropped, misrouted or mis-sized")
+	}
 	// channel operations on conn.readC
 	connT := m.named(pkgMux, "conn")
 	cRead := m.method(pkgMux, "conn", "Read")
